@@ -88,11 +88,19 @@ pub fn kf2_applicable(b: &Built) -> bool {
     for t in f.sys.iter().filter(|s| s.is_tl && s.parent.is_some()) {
         let anc = f.ancestors(t.idx);
         for x in &f.sys {
-            if x.idx == t.idx || anc.contains(&x.idx) || x.is_batch {
+            if x.idx == t.idx || anc.contains(&x.idx) {
                 continue;
             }
             // x lives outside the innermost batch around t
             if f.ancestors(x.idx).contains(&anc[0]) {
+                continue;
+            }
+            if x.is_batch {
+                // another batch: what its controller declares (its inner systems are visited on
+                // their own)
+                if crate::plan::conflict_sets(&t.acc_r, &t.acc_w, &x.own_r, &x.own_w) {
+                    return true;
+                }
                 continue;
             }
             if f.conflict(t.idx, x.idx) {
